@@ -1,6 +1,10 @@
 //! rscel's public AST -> span-free `Shape`, and a walker that yields every node with its
 //! source range (for C18).
 
+// Every match over one of rscel's public enums has a catch-all arm: a change that adds a variant
+// (new syntax) must not stop the harness from compiling — an unknown node becomes an opaque shape.
+#![allow(unreachable_patterns)]
+
 use crate::expr::{SPat, SSeg, Shape};
 use crate::val::V;
 use rscel::{
@@ -31,6 +35,7 @@ pub fn shape_expr(e: &Expr) -> Shape {
                 .collect(),
         ),
         Expr::Unary(o) => shape_or(o.node()),
+        _ => Shape::Ident("<unknown-expr>".into()),
     }
 }
 
@@ -50,6 +55,7 @@ fn shape_pat(p: &MatchPattern) -> SPat {
                 MatchTypePattern::Null => "null",
                 MatchTypePattern::Timestamp => "timestamp",
                 MatchTypePattern::Duration => "duration",
+                _ => "<unknown-type-pattern>",
             }
             .to_string(),
         ),
@@ -61,10 +67,12 @@ fn shape_pat(p: &MatchPattern) -> SPat {
                 MatchCmpOp::Ge => ">=",
                 MatchCmpOp::Lt => "<",
                 MatchCmpOp::Le => "<=",
+                _ => "<unknown-op>",
             }
             .to_string(),
             shape_or(or.node()),
         ),
+        _ => SPat::Cmp("<unknown-pattern>".to_string(), Shape::Ident("<unknown-pattern>".into())),
     }
 }
 
@@ -76,6 +84,7 @@ pub fn shape_or(o: &ConditionalOr) -> Shape {
             Box::new(shape_and(rhs.node())),
         ),
         ConditionalOr::Unary(a) => shape_and(a.node()),
+        _ => Shape::Ident("<unknown-or>".into()),
     }
 }
 
@@ -87,6 +96,7 @@ fn shape_and(o: &ConditionalAnd) -> Shape {
             Box::new(shape_rel(rhs.node())),
         ),
         ConditionalAnd::Unary(a) => shape_rel(a.node()),
+        _ => Shape::Ident("<unknown-and>".into()),
     }
 }
 
@@ -99,6 +109,7 @@ pub fn relop_sym(op: &Relop) -> &'static str {
         Relop::Eq => "==",
         Relop::Ne => "!=",
         Relop::In => "in",
+        _ => "<unknown-relop>",
     }
 }
 
@@ -110,6 +121,7 @@ fn shape_rel(o: &Relation) -> Shape {
             Box::new(shape_add(rhs.node())),
         ),
         Relation::Unary(a) => shape_add(a.node()),
+        _ => Shape::Ident("<unknown-relation>".into()),
     }
 }
 
@@ -119,12 +131,14 @@ fn shape_add(o: &Addition) -> Shape {
             match op {
                 AddOp::Add => "+",
                 AddOp::Sub => "-",
+                _ => "<unknown-addop>",
             }
             .into(),
             Box::new(shape_add(lhs.node())),
             Box::new(shape_mul(rhs.node())),
         ),
         Addition::Unary(a) => shape_mul(a.node()),
+        _ => Shape::Ident("<unknown-addition>".into()),
     }
 }
 
@@ -135,12 +149,14 @@ fn shape_mul(o: &Multiplication) -> Shape {
                 MultOp::Mult => "*",
                 MultOp::Div => "/",
                 MultOp::Mod => "%",
+                _ => "<unknown-multop>",
             }
             .into(),
             Box::new(shape_mul(lhs.node())),
             Box::new(shape_unary(rhs.node())),
         ),
         Multiplication::Unary(a) => shape_unary(a.node()),
+        _ => Shape::Ident("<unknown-multiplication>".into()),
     }
 }
 
@@ -148,6 +164,7 @@ fn not_len(n: &NotList) -> usize {
     match n {
         NotList::List { tail } => 1 + not_len(tail.node()),
         NotList::EmptyList => 0,
+        _ => 0,
     }
 }
 
@@ -155,6 +172,7 @@ fn neg_len(n: &NegList) -> usize {
     match n {
         NegList::List { tail } => 1 + neg_len(tail.node()),
         NegList::EmptyList => 0,
+        _ => 0,
     }
 }
 
@@ -167,6 +185,7 @@ fn shape_unary(u: &Unary) -> Shape {
         Unary::NegMember { negs, member } => {
             Shape::Neg(neg_len(negs.node()), Box::new(shape_member(member.node())))
         }
+        _ => Shape::Ident("<unknown-unary>".into()),
     }
 }
 
@@ -185,6 +204,8 @@ fn shape_member(m: &Member) -> Shape {
                 Shape::Index(Box::new(cur), Box::new(shape_expr(access.node())))
             }
             MemberPrime::Empty => cur,
+            // an unknown postfix piece: keep the receiver, mark the step
+            _ => Shape::Field(Box::new(cur), "<unknown-postfix>".to_string()),
         };
     }
     cur
@@ -207,6 +228,7 @@ fn shape_primary(p: &Primary) -> Shape {
         }
         Primary::ObjectInit(o) => Shape::Map(shape_objinits(o.node())),
         Primary::Literal(l) => shape_lit(l),
+        _ => Shape::Ident("<unknown-primary>".into()),
     }
 }
 
@@ -330,6 +352,9 @@ impl Walker {
                     self.expr(&c.node().expr, Some(cn));
                 }
             }
+            _ => {
+                self.push(Kind::Expr, "UnknownExpr", n.range(), parent, Some(sh), false);
+            }
         }
     }
 
@@ -344,6 +369,9 @@ impl Walker {
                 let me = self.push(Kind::Expr, "Or", n.range(), parent, Some(sh), false);
                 self.or(lhs, Some(me));
                 self.and(rhs, Some(me));
+            }
+            _ => {
+                self.push(Kind::Expr, "Or", n.range(), parent, Some(sh), false);
             }
         }
     }
@@ -360,6 +388,9 @@ impl Walker {
                 self.and(lhs, Some(me));
                 self.rel(rhs, Some(me));
             }
+            _ => {
+                self.push(Kind::Expr, "And", n.range(), parent, Some(sh), false);
+            }
         }
     }
 
@@ -374,6 +405,9 @@ impl Walker {
                 let me = self.push(Kind::Expr, "Rel", n.range(), parent, Some(sh), false);
                 self.rel(lhs, Some(me));
                 self.add(rhs, Some(me));
+            }
+            _ => {
+                self.push(Kind::Expr, "Rel", n.range(), parent, Some(sh), false);
             }
         }
     }
@@ -390,6 +424,9 @@ impl Walker {
                 self.add(lhs, Some(me));
                 self.mul(rhs, Some(me));
             }
+            _ => {
+                self.push(Kind::Expr, "Add", n.range(), parent, Some(sh), false);
+            }
         }
     }
 
@@ -404,6 +441,9 @@ impl Walker {
                 let me = self.push(Kind::Expr, "Mul", n.range(), parent, Some(sh), false);
                 self.mul(lhs, Some(me));
                 self.unary(rhs, Some(me));
+            }
+            _ => {
+                self.push(Kind::Expr, "Mul", n.range(), parent, Some(sh), false);
             }
         }
     }
@@ -424,6 +464,9 @@ impl Walker {
                 let me = self.push(Kind::Expr, "Unary", n.range(), parent, Some(sh), false);
                 self.push(Kind::OpRun, "NegList", negs.range(), Some(me), None, false);
                 self.member(member, Some(me));
+            }
+            _ => {
+                self.push(Kind::Expr, "Unary", n.range(), parent, Some(sh), false);
             }
         }
     }
@@ -449,6 +492,7 @@ impl Walker {
                     self.expr(access, Some(pn));
                 }
                 MemberPrime::Empty => {}
+                _ => {}
             }
         }
     }
